@@ -290,18 +290,26 @@ func (t *faultTree) run(c faultCall) (res, msg string, data [][]int) {
 			})
 			t.fc.kind, t.fc.at, t.fc.at2 = k, a, a2
 			return err
-		case "walk":
+		case "walk", "rwalk":
+			// rwalk: a navigation call that returns an error is made again, once, on the same cursor (the injected fault is one-shot)
+			again := func(f func() error) error {
+				err := f()
+				if err != nil && c.Op == "rwalk" {
+					err = f()
+				}
+				return err
+			}
 			cur, err := t.m.Cursor(ctx)
 			if err != nil {
 				return err
 			}
 			switch c.Start {
 			case "min":
-				err = cur.Min(ctx)
+				err = again(func() error { return cur.Min(ctx) })
 			case "max":
-				err = cur.Max(ctx)
+				err = again(func() error { return cur.Max(ctx) })
 			default:
-				err = cur.Ceil(ctx, t.kc.Key(c.K))
+				err = again(func() error { return cur.Ceil(ctx, t.kc.Key(c.K)) })
 			}
 			if err != nil {
 				return err
@@ -317,9 +325,9 @@ func (t *faultTree) run(c faultCall) (res, msg string, data [][]int) {
 			get()
 			for _, mv := range c.Moves {
 				if mv == "F" {
-					err = cur.Forward(ctx)
+					err = again(func() error { return cur.Forward(ctx) })
 				} else {
-					err = cur.Backward(ctx)
+					err = again(func() error { return cur.Backward(ctx) })
 				}
 				if err != nil {
 					return err
@@ -413,7 +421,10 @@ func faultCalls(t *faultTree, rng *rand.Rand) []faultCall {
 	cs = append(cs, faultCall{Op: "iter"}, faultCall{Op: "clone"}, faultCall{Op: "diff"}, faultCall{Op: "dlinks"},
 		faultCall{Op: "walk", Start: "min", Moves: mv(len(present)+1, true)},
 		faultCall{Op: "walk", Start: "max", Moves: mv(len(present)+1, false)},
-		faultCall{Op: "walk", Start: "ceil", K: 1 + rng.Intn(nk), Moves: []string{"F", "B", "B", "F"}})
+		faultCall{Op: "walk", Start: "ceil", K: 1 + rng.Intn(nk), Moves: []string{"F", "B", "B", "F"}},
+		faultCall{Op: "rwalk", Start: "min", Moves: mv(len(present)+1, true)},
+		faultCall{Op: "rwalk", Start: "max", Moves: mv(len(present)+1, false)},
+		faultCall{Op: "rwalk", Start: "ceil", K: 1 + rng.Intn(nk), Moves: []string{"F", "F", "B", "B", "B", "F"}})
 	for i := range cs {
 		if cs[i].Moves == nil {
 			cs[i].Moves = []string{}
